@@ -50,6 +50,7 @@ HOSTILE_WORDS = ['"quoted"', "it's", 'a,b', 'two words', 'naïve', 'señor', 'gr
                  # an invisible character in front of a word or of something that looks like an operator: part of the cell, in every
                  # column and on every line (a byte-order mark belongs to the file, not to a cell)
                  '\ufeffla', '\ufeff*^', '\u200b*-', '\ufeff', '\ufeff=1', '\u2060*v', '\ufeff.']
+NULL_LIKE_WORDS = ['...', '..', '…', '....']
 SEPARATOR_WORDS = ['col·le', 'me@example.org', '@', '·', 'a@b·c']
 # characters str.splitlines() breaks at, inside a word (never a Humdrum record separator)
 BOUNDARY_WORDS = ['la\u2028li', 'a\x0cb', 'x\x85y', 'p\u2029q', 'v\x0bt', 'f\x1cs', 'g\x1dh', 'k\x1el']
@@ -129,6 +130,7 @@ class Profile:
     hostile_text: float = 0.25
     boundary_text: float = 0.0           # probability that a lyric / field comment holds a Unicode line-boundary character
     separator_text: float = 0.0
+    null_like_words: float = 0.02        # probability that a lyric is a word spelled with the characters of the null tokens ('...')
     p_chord: float = 0.15
     p_rest: float = 0.12
     p_null: float = 0.18
@@ -258,6 +260,9 @@ class _Gen:
         if p.boundary_text and rng.random() < p.boundary_text:
             self.doc.tags.add('line_boundary_character_in_text')
             return Cell('text', rng.choice(BOUNDARY_WORDS))
+        if p.null_like_words and rng.random() < p.null_like_words:
+            self.doc.tags.add('null_like_words')
+            return Cell('text', rng.choice(NULL_LIKE_WORDS))
         if rng.random() < p.hostile_text:
             w = rng.choice(HOSTILE_WORDS)
             if w.startswith('"'):
